@@ -6,6 +6,8 @@ VAL = ("ite(has(base, k) and typeis(get(base, k), \"ref:dict\") and typeis(get(c
 
 def register(reg):
     C = reg.contract
+    register_loads(reg)
+    register_process_includes(reg)
     C("fields.include_field:IncludeField.combine_trees", params={"base": "ref:dict", "child": "ref:dict"}, returns="ref:dict",
       modifies=["fresh"], noraise=True,
       defines_ensures={"C18.is-merge": "is_merge(result, base, child)"},
@@ -23,3 +25,55 @@ def register(reg):
           "untouched": "forall('k:key', 'implies(has(base, k) and not (has(child, k) and pos(child, k) < I), get(ret, k) == get(base, k))')",
           "pure": "heap_unchanged(ret)",
       }})
+
+
+def register_loads(reg):
+    C = reg.contract
+    KS = "'Config._Config__keyfile', 'KeyFile._KeyFile__key', 'KeyFile._KeyFile__refcount'"
+    LINKS = "'Config._parent', 'Config._key', 'Config._container'"
+    # ghost counters: nparse counts ConfigFormat.loads calls, nload counts load_tree calls
+    reg.contracts["core:ConfigFormat.loads"].modifies += ["nparse"]
+    reg.contracts["core:ConfigFormat.loads"].defines_ensures["G.counts-as-one-parse"] = "glob('nparse') == old(glob('nparse')) + 1"
+    reg.contracts["core:ConfigFormat.loads"].defines_raises["G.counts-as-one-parse"] = "glob('nparse') == old(glob('nparse')) + 1"
+    reg.contracts["core:Config.load_tree"].modifies += ["nload"]
+    reg.contracts["core:Config.load_tree"].defines_ensures["G.counts-as-one-load"] = "glob('nload') == old(glob('nload')) + 1"
+    reg.contracts["core:Config.load_tree"].defines_raises["G.counts-as-one-load"] = "glob('nload') == old(glob('nload')) + 1"
+    reg.contracts["core:ConfigFormat.loads"].defines_ensures["G.parsed-tree-is-new"] = 'forall("r:ref", "implies(in_tree(result, r), fresh(r))")'
+    g = reg.contracts["core:ConfigFormat.get"]
+    g.ensures["C18.formatter-configured-as-asked"] = "fmt_name(result) == name and fmt_opts(result) is kwargs"
+    C("fields.include_field:IncludeField.include", params={"config": "ref:Config", "fmt": "ref:ConfigFormat", "filename": "any", "base": "ref:dict"},
+      returns="ref:dict", modifies=["fresh", "ncalls", "nparse"] + ["Config._parent@*", "Config._key@*", "Config._container@*"],
+      ensures={
+          "C18.included-file-parsed-afresh-by-the-given-formatter": "glob('nparse') == old(glob('nparse')) + 1",
+          "C18.result-is-a-new-tree": "fresh(result)",
+          "C18.base-domain-kept": 'forall("k:key", "implies(has(base, k), has(result, k))")',
+          "C18+C06.inputs-and-configuration-untouched": "heap_unchanged(%s) and fs_same()" % LINKS,
+      },
+      raises={"C18+C06.inputs-and-configuration-untouched": "heap_unchanged(%s) and fs_same()" % LINKS})
+    FR = "heap_unchanged(%s, %s, self._data, self._default_value_keys, self._fields)" % (LINKS, KS)
+    C("core:Config.loads", params={"content": "str|bytes", "format": "str", "kwargs": "ref:dict"},
+      assumes={"A.acyclic": "True"},
+      modifies=["dict:self._data", "set:self._default_value_keys", "dict:self._fields", "fs", "rand_ctr", "fresh", "ncalls", "nparse", "nload",
+                "Config._Config__keyfile@*", "KeyFile._KeyFile__key@*", "KeyFile._KeyFile__refcount@*", "Config._parent@*", "Config._key@*", "Config._container@*"],
+      ensures={
+          "C18.includes-are-parsed-by-a-formatter-configured-like-the-document's": "pf_name(loc_format_factory) == format and pf_kwargs(loc_format_factory) is kwargs",
+          "C18.loads-is-one-tree-load-after-include-processing": "glob('nload') == old(glob('nload')) + 1",
+          "C06+C13.only-receiver-changes": FR,
+      },
+      raises={
+          "C06.failed-parse-or-include-leaves-the-configuration": "implies(glob('nload') == old(glob('nload')), heap_unchanged(%s))" % LINKS,
+          "C06+C13.only-receiver-changes": FR,
+      })
+
+
+def register_process_includes(reg):
+    LINKS = "'Config._parent', 'Config._key', 'Config._container'"
+    reg.contract(
+        "core:Config._process_includes", params={"schema": "ref:Schema", "tree": "ref:dict", "format_factory": "ref:partial"}, returns="ref:dict",
+        modifies=["fresh", "ncalls", "nparse", "$map@*", "$dom@*", "$len@*", "$keys@*", "$pos@*", "Config._parent@*", "Config._key@*", "Config._container@*"],
+        trusted=True,
+        note="two filtered comprehensions producing (key, field) tuples and in-place recursion on the parsed tree: not yet within the subset; "
+             "the clauses below are assumed and exercised by the bounded C18 driver (13 include scenarios x 5 formats x 4 path modes)",
+        ensures={"C06+C18.only-the-parsed-tree-changes": 'forall("r:ref", "implies(not in_tree(tree, r), obj_unchanged(r))") and fs_same()',
+                 "C18.result-is-a-tree": "typeis(result, 'ref:dict')"},
+        raises={"C06+C18.only-the-parsed-tree-changes": 'forall("r:ref", "implies(not in_tree(tree, r), obj_unchanged(r))") and fs_same()'})
